@@ -234,6 +234,45 @@ func vChooseCorpusCase(r *vx.Run, docs []vDoc, families []string) vCase {
 			}
 		}
 		return vCase{fmt.Sprintf("periodic:%s:%s every %d phase %d", d.Key, vEditNames[kind], p, ph), t.bytes(), d.Key}
+	case "boundary":
+		// edit totals placed ON the rejection boundary: with K the token count of the document, a total
+		// of K*pct/100 + delta edited words (pct 10/20/30 for thresholds 0.9/0.8/0.7) - as single
+		// inserted OOV words evenly spread (every word of the document stays in a run), or as blocks of
+		// five words that are alternately inserted and removed
+		d := docs[r.Choose(len(docs), "doc")]
+		pct := []int{10, 20, 30}[r.Choose(3, "pct")]
+		delta := []int{-1, 0, 1, 2, 4}[r.Choose(5, "delta")]
+		style := r.Choose(2, "style")
+		t := vParse(d.Bytes)
+		n := t.nwords()
+		total := len(vTokenize(d.Bytes))*pct/100 + delta
+		if total < 1 || n < 20 {
+			return vCase{"exact:" + d.Key, d.Bytes, d.Key}
+		}
+		if style == 0 {
+			for i := total; i >= 1; i-- { // later positions first so indices stay valid
+				t.apply(vEditInsertOOV, i*n/(total+1), i)
+			}
+		} else {
+			blocks := (total + 4) / 5
+			left := total
+			for b := blocks; b >= 1; b-- {
+				size := 5
+				if b == blocks && total%5 != 0 {
+					size = total % 5
+				}
+				at := b * n / (blocks + 1)
+				for k := 0; k < size && left > 0; k++ {
+					if b%2 == 1 {
+						t.apply(vEditInsertOOV, at, b*7+k)
+					} else {
+						t.apply(vEditDelete, at, 0)
+					}
+					left--
+				}
+			}
+		}
+		return vCase{fmt.Sprintf("boundary:%s:%d%%%+d:%s", d.Key, pct, delta, []string{"single-insertions", "blocks-of-5"}[style]), t.bytes(), d.Key}
 	case "scatter":
 		// dense irregular noise: positions from a fixed low-discrepancy sequence (golden-ratio
 		// rotation), density 8..20%, mixed edit kinds; deterministic, enumerated by (doc, density, salt)
